@@ -202,21 +202,24 @@ void ScriptClass::KillThreads()
         return;
     }
 
-    ScriptVM *m_current;
-    ScriptVM *m_next;
-
-    m_current = m_Threads;
-
-    do
+    // detach every thread before deleting any: deleting a thread can delete another thread
+    // of this instance (one that others wait on), so no raw pointer may be kept across a delete
+    con::Container<SafePtr<ScriptThread>> threads;
+    for (ScriptVM* vm = m_Threads; vm; vm = vm->GetNext())
     {
-        m_current->ClearScriptClass();
-
-        m_next = m_current->GetNext();
-        delete m_current->GetScriptThread();
-
-    } while ((m_current = m_next));
+        vm->ClearScriptClass();
+        threads.AddObject(vm->GetScriptThread());
+    }
 
     m_Threads = NULL;
+
+    for (uintptr_t i = 1; i <= threads.NumObjects(); ++i)
+    {
+        ScriptThread* const thread = threads.ObjectAt(i);
+        if (thread) {
+            delete thread;
+        }
+    }
 }
 
 void ScriptClass::RemoveThread(ScriptVM *m_ScriptVM)
